@@ -9,6 +9,7 @@ import (
 	"reflect"
 	"sort"
 	"strings"
+	"sync"
 	"testing"
 
 	"github.com/specterops/dawgs/cypher/models/cypher"
@@ -28,17 +29,27 @@ import (
 
 func TestMain(m *testing.M) {
 	evid.Main(m, "C02", "translation_validation",
-		"(graph, query, parameters) triples as in C01 with shape weights shifted towards what the lowerings look for (multi-pattern MATCH with anchors, inbound steps, LIMIT with/without DISTINCT and ORDER, count aggregates, exact ranges, suffix patterns after expansions, collect + IN, quantifiers over relationships(p), path functions). Each query is translated twice by DAWGS - normally, and through the verif hook translate.TranslateWithPlan with a plan that carries only a copy of the query (no rewrite rule, empty lowering plan) - and both SQL texts are executed by pgsim on the same graph; the results must agree as far as openCypher determines the result (determinacy taken from refcypher under four tie-break orders). Additionally refcypher(optimize.Optimize(q).Query) must agree with refcypher(q). Thorough: per-lowering ablation (a plan with exactly one lowering class kept vs none). Non-trivial = at least one lowering applied or rule fired and the two SQL texts differ; distinct by (query, graph).",
-		"pgsim and refcypher as in C01; run-time evaluation errors on either side make a case inconclusive (PostgreSQL does not fix evaluation order, a cast error under one plan only is not a verdict)",
-		"hook H1 translate.TranslateWithPlan mirrors translate.Translate step for step (build tag verif)")
+		"(graph, query, parameters) triples as in C01, half of them from templates shaped like what the lowerings look for (multi-pattern MATCH with anchors, inbound steps, LIMIT with/without DISTINCT and ORDER, count aggregates, exact ranges, suffix patterns after expansions, collect + IN, quantifiers over relationships(p), path functions). Each query is translated twice by DAWGS - normally, and through the verif hook translate.TranslateWithPlan with a plan that carries only a copy of the query (no rewrite rule, empty lowering plan) - and both SQL texts are executed by pgsim on the same graph; the two results must agree as far as openCypher determines the result (sequence / bag / bag modulo list order / row count; determinacy from refcypher as in C01). Additionally refcypher(optimize.Optimize(q).Query) must agree with refcypher(q) (a pattern part marked PathDirectionReversed binds its path in the original order). Thorough: per-lowering ablation (a plan with exactly one lowering class kept vs none). Shapes of listed, still open defects are counted as excluded. Non-trivial = at least one lowering applied or rewrite rule fired and the two SQL texts differ; distinct by (query, graph).",
+		"pgsim and refcypher as in C01; run-time evaluation errors on either side make a case inconclusive (PostgreSQL does not fix evaluation order, a cast error under one plan only is not a verdict); SQL that PostgreSQL rejects statically on one side only is counted (class only-optimised-static-error / only-unoptimised-static-error) and left to C03, which judges static validity",
+		"hook H1 translate.TranslateWithPlan mirrors translate.Translate step for step (build tag verif)",
+		"the shortest-path lowerings (ShortestPathStrategySelection, ShortestPathFilterMaterialization) are not exercised: pgsim does not execute the plpgsql shortest-path harness")
 }
 
+// genCase: as in C01, up to four pairs are drawn and the first one outside every open exclusion is used.
 func genCase(t *rapid.T) qcase.Case {
-	g := cy.Graph(t)
-	o := cy.DefaultOptions()
-	o.Bias = "lowerings"
-	q := cy.Generate(t, o)
-	return qcase.Case{Graph: g, Query: q.Text, Params: q.Params, Features: q.Features}
+	var c qcase.Case
+	for attempt := 0; attempt < 4; attempt++ {
+		g := cy.Graph(t)
+		o := cy.DefaultOptions()
+		o.Bias = "lowerings"
+		q := cy.Generate(t, o)
+		c = qcase.Case{Graph: g, Query: q.Text, Params: q.Params, Features: q.Features}
+		model, err := xlate.Parse(c.Query)
+		if err != nil || qcase.ExcludedBy(c, model, findingOpen) == "" {
+			break
+		}
+	}
+	return c
 }
 
 type translated struct {
@@ -150,6 +161,15 @@ func oracle(c qcase.Case) (evid.Info, error) {
 	for _, l := range opt.raw.Optimization.Lowerings {
 		info.Classes = append(info.Classes, "lowering:"+l.Name)
 	}
+	defer func() {
+		if info.Skip == "" {
+			seenMu.Lock()
+			for _, cl := range info.Classes {
+				seenClasses[cl]++
+			}
+			seenMu.Unlock()
+		}
+	}()
 	for _, r := range opt.raw.Optimization.Rules {
 		if r.Applied {
 			info.Classes = append(info.Classes, "rule:"+r.Name)
@@ -193,7 +213,20 @@ func oracle(c qcase.Case) (evid.Info, error) {
 	gotOpt, skipOpt := run(db, opt)
 	gotUn, skipUn := run(db, unopt)
 	if skipOpt != "" || skipUn != "" {
-		info.Skip = "opt:" + skipOpt + " unopt:" + skipUn
+		staticOpt, staticUn := strings.HasPrefix(skipOpt, "sql-static-error"), strings.HasPrefix(skipUn, "sql-static-error")
+		switch {
+		case staticOpt && skipUn == "":
+			info.Skip = "only-optimised-static-error(C03)"
+		case staticUn && skipOpt == "":
+			info.Skip = "only-unoptimised-static-error(C03)"
+		case staticOpt && staticUn:
+			info.Skip = "both-static-error(C03)"
+		default:
+			info.Skip = "opt:" + short(skipOpt) + " unopt:" + short(skipUn)
+		}
+		if os.Getenv("VERIF_TRIAGE") == "full" {
+			info.Skip += " | " + skipOpt + " | " + skipUn + " | " + c.Query
+		}
 		return info, nil
 	}
 	if msg := qcase.Compare(gotUn, det, gotOpt); msg != "" {
@@ -238,6 +271,30 @@ func oracle(c qcase.Case) (evid.Info, error) {
 	return info, nil
 }
 
+var (
+	seenMu      sync.Mutex
+	seenClasses = map[string]int{}
+)
+
+// allLowerings: the lowering names of optimize/lowering.go; every one of them should be exercised by evaluated cases.
+var allLowerings = []string{
+	optimize.LoweringProjectionPruning, optimize.LoweringLatePathMaterialization, optimize.LoweringExpandIntoDetection,
+	optimize.LoweringTraversalDirection, optimize.LoweringShortestPathStrategy, optimize.LoweringShortestPathFilter,
+	optimize.LoweringLimitPushdown, optimize.LoweringExpansionSuffixPushdown, optimize.LoweringPredicatePlacement,
+	optimize.LoweringCountStoreFastPath, optimize.LoweringCollectIDMembership, optimize.LoweringAggregateTraversalCount,
+	optimize.LoweringExactRangeExpansion, optimize.LoweringPathRelationshipPredicate,
+}
+
 func TestC02Generated(t *testing.T) {
-	evid.Prop(t, checkName, evid.R.N(1500, 15000), genCase, oracle)
+	evid.Prop(t, checkName, evid.R.N(6000, 15000), genCase, oracle)
+	var never []string
+	seenMu.Lock()
+	for _, l := range allLowerings {
+		if seenClasses["lowering:"+l] == 0 {
+			never = append(never, l)
+		}
+	}
+	seenMu.Unlock()
+	sort.Strings(never)
+	evid.R.Extra("lowerings_never_exercised", never)
 }
